@@ -12,6 +12,7 @@ import Driver.MarkupDrv
 import Driver.WaitDrv
 import Driver.NextTokenDrv
 import Driver.ChanDrv
+import Driver.ListenerDrv
 /-! `ysgo-model`: reads case lines on stdin, prints the model's observation lines (id, index, observation) -/
 open Ysgo Ysgo.Drv
 
@@ -31,6 +32,7 @@ def dispatch (stream : String) (c : S) : List String :=
   | "wait" => waitCase c
   | "nexttoken" => nexttokenCase c
   | "chansched" => chanschedCase c
+  | "listener" => listenerCase c
   | _ => ["UNKNOWN-STREAM"]
 
 partial def loop (h : IO.FS.Stream) (out : IO.FS.Stream) : IO Unit := do
